@@ -235,6 +235,27 @@ func runC24(c *Ctx) {
 			ld, ok := v.(*ssa.UnOp)
 			return ok && ld.Op == token.MUL && strings.HasSuffix(PathOf(ld.X), ".mu.readyServer")
 		}
+		// "deliver directly" (return false) only for an existing, ready backend: with no backend chosen yet
+		// (target == nil, readyServer == nil) the message must be queued, not handed to a caller that has
+		// nowhere to send it
+		for _, r := range returnsOf(enq) {
+			if r.Block() == enq.Recover || len(r.Results) != 1 {
+				continue
+			}
+			if b, isC := constBool(retVal(r, 0)); !isC || b {
+				continue
+			}
+			g, n := MustCross(r, func(e Edge, cond ssa.Value, truth bool) bool {
+				v, isNil, ok := nilCmp(cond, truth)
+				if !ok || isNil {
+					return false
+				}
+				p, isP := strip(v).(*ssa.Parameter)
+				return isP && p == enq.Params[1]
+			})
+			c.Check("enqueue-ready-atomic", "bypass-only-with-a-backend@enqueuePluginMessage", r, g && n > 0,
+				"the queue is bypassed (message to be delivered directly) although no backend exists yet (target == nil compares equal to the unset readyServer): the early message is dropped instead of queued")
+		}
 		for _, ci := range callsIn(enq, func(nm string, cc *ssa.CallCommon) bool { return methodName(cc) == "PushBack" }) {
 			// dominated by the "not ready for this target" edge, evaluated in the same critical section
 			var cmpBlock *ssa.BasicBlock
